@@ -69,7 +69,9 @@ class Endpoint:
             self.p, self.t = wsx.make_server(self.log, opts=opts)
         else:
             opts["serverConnectionDropTimeout"] = cfg["dropTO"]
-            self.p, self.t = wsx.make_client(self.log, opts=opts)
+            # through an explicit HTTP proxy the opening handshake (and its deadline) starts with the CONNECT round trip
+            kw = dict(proxy={"host": "proxy.example.com", "port": 3128}) if cfg.get("proxy") else None
+            self.p, self.t = wsx.make_client(self.log, opts=opts, factory_kw=kw)
             fw.settle()
         self.up = True
         self.lost_at = None
@@ -88,6 +90,7 @@ class Endpoint:
                             fw.lose(ep.p, clean=clean)
                     setattr(self.t, nm, w)
         self.peer_closed = False
+        self.proxied = False
         self.dac = False
         self.late = False
         self.counts = dict(close=0, ping=0, data=0, pong=0)
@@ -162,6 +165,8 @@ class Endpoint:
         if self.cfg["role"] == "server":
             self.feed(wsx.CLIENT_REQUEST % b"")
         else:
+            if self.cfg.get("proxy") and not self.proxied:
+                self.do("proxied")
             req = bytes(self.t.written)
             key = [ln.split(b":", 1)[1].strip() for ln in req.split(b"\r\n") if ln.lower().startswith(b"sec-websocket-key:")][0]
             self.feed(b"HTTP/1.1 101 Switching Protocols\r\nUpgrade: websocket\r\nConnection: Upgrade\r\n"
@@ -175,6 +180,12 @@ class Endpoint:
         p, rng = self.p, self.rng
         if name == "open":
             return self.do_open()
+        if name == "proxied":
+            # the proxy answers the CONNECT: the client goes on with its upgrade request, still connecting, same deadline
+            self.proxied = True
+            self.feed(b"HTTP/1.1 200 Connection established\r\n\r\n")
+            fw.settle()
+            return self.ev("proxied")
         if name == "lclose":
             code = 0
             try:
@@ -276,8 +287,9 @@ def gen_cfg(rng, profile):
         p = rng.choice([(1, 1, True), (2, 2, True), (1, 2, False), (5, 1, True), (2, 0, True), (1, 5, False)])
     else:
         p = rng.choice([(0, 0, True), (0, 0, True), (1, 1, True), (2, 1, False)])
-    return dict(syncLoss=(profile == "c05" and rng.random() < 0.2),
-                role=rng.choice(["server", "client"]), failByDrop=rng.random() < 0.5, echo=rng.random() < 0.3,
+    role = rng.choice(["server", "client"])
+    return dict(syncLoss=(profile == "c05" and rng.random() < 0.2), proxy=(role == "client" and rng.random() < 0.25),
+                role=role, failByDrop=rng.random() < 0.5, echo=rng.random() < 0.3,
                 openTO=t[0], closeTO=t[1], dropTO=t[2], pingInt=p[0], pingTO=p[1], restart=p[2])
 
 
@@ -293,6 +305,8 @@ def scenario(rng, profile):
     if rng.random() < 0.85:
         for _ in range(rng.choice([0, 0, 1, 3])):
             ep.do("adv")
+            if cfg.get("proxy") and not ep.proxied and ep.up and wsx.STATE[ep.p.state] == "CONNECTING" and rng.random() < 0.3:
+                ep.do("proxied")
         if wsx.STATE[ep.p.state] == "CONNECTING" and ep.up:
             ep.do("open")
             opened = True
